@@ -1,5 +1,67 @@
-import RPVerif.Model.Sched
+import RPVerif.Lemmas.Sched
+
+/-!
+# C02 — A granted placement has exactly the requested shape
+-/
 namespace RPVerif.C02
-open RPVerif.Sched
-theorem placeholder : (1 : Nat) = 1 := rfl
+open RPVerif.Sched List
+
+/-- **shape of every rank's share**: each slot returned by the per-node search
+    lies on that node, holds exactly `cores_per_rank` distinct cores, the
+    requested GPU amount (that many distinct whole GPUs, or one GPU with exactly
+    the requested share, or none), and the requested storage and memory -/
+theorem C02_slot_shape (n : NodeSt) (nSlots cps gpr lfs mem : Nat) (p : Bool) (slots : List Slot)
+    (hcps : 0 < cps) (hl : lfs ≠ 0 → (0 : Int) ≤ n.lfs) (hm : mem ≠ 0 → (0 : Int) ≤ n.mem)
+    (h : findResources n nSlots cps gpr lfs mem p = .ok (some slots)) :
+    ∀ sl ∈ slots,
+      sl.node = n.index ∧ sl.cores.length = cps ∧ sl.cores.Nodup ∧ sl.lfs = lfs ∧ sl.mem = mem
+      ∧ (gpr ≥ 16 → sl.gpus.length = gpr / 16 ∧ (sl.gpus.map (·.1)).Nodup ∧ ∀ g ∈ sl.gpus, g.2 = 16)
+      ∧ (0 < gpr ∧ gpr < 16 → ∃ g, sl.gpus = [(g, gpr)])
+      ∧ (gpr = 0 → sl.gpus = []) := by
+  intro sl hsl
+  have hfit := (findResources_fit n nSlots cps gpr lfs mem p slots hcps hl hm h).1
+  obtain ⟨a, b, c, d, e, f, g⟩ := hfit.shape sl hsl
+  refine ⟨a, b, ?_, c, d, ?_, f, g⟩
+  · -- cores of one slot are a sublist of all cores, which are strictly increasing
+    have hsub : sl.cores.Sublist (allCores slots) := by
+      unfold allCores
+      obtain ⟨l1, l2, rfl⟩ := append_of_mem hsl
+      simp only [flatMap_append, flatMap_cons]
+      exact (sublist_append_left _ _).trans (sublist_append_right _ _)
+    exact (Pairwise.sublist hsub hfit.cores_inc).imp (fun hlt => Nat.ne_of_lt hlt)
+  · intro hw
+    obtain ⟨e1, e2, e3⟩ := e hw
+    exact ⟨e1, e2.imp (fun hlt => Nat.ne_of_lt hlt), e3⟩
+
+/-- never more slots than asked for; exactly as many unless a partial answer was allowed -/
+theorem C02_slot_count (n : NodeSt) (nSlots cps gpr lfs mem : Nat) (p : Bool) (slots : List Slot)
+    (hcps : 0 < cps) (hl : lfs ≠ 0 → (0 : Int) ≤ n.lfs) (hm : mem ≠ 0 → (0 : Int) ≤ n.mem)
+    (h : findResources n nSlots cps gpr lfs mem p = .ok (some slots)) :
+    slots.length ≤ nSlots ∧ (p = false → slots.length = nSlots) :=
+  (findResources_fit n nSlots cps gpr lfs mem p slots hcps hl hm h).2
+
+/-- **a request whose per-rank needs exceed a single node is rejected** (an
+    AssertionError, i.e. the task is FAILED), never granted a smaller placement -/
+theorem C02_reject (c : Cfg) (s : SchedSt) (r : Req)
+    (h : (if r.cpr = 0 then 1 else r.cpr) > c.cpn ∨ r.gpr > c.gpn * 16 ∨ r.lfs > c.lfsPn ∨ r.mem > c.memPn) :
+    scheduleTask c s r = (.error .assertion, s) := by
+  unfold scheduleTask
+  simp only [h, if_true]
+
+/-- a single-rank (non-MPI) task needing more ranks than one node can host is a ValueError -/
+theorem C02_nonmpi_single_node (c : Cfg) (s : SchedSt) (r : Req)
+    (h0 : ¬ ((if r.cpr = 0 then 1 else r.cpr) > c.cpn ∨ r.gpr > c.gpn * 16 ∨ r.lfs > c.lfsPn ∨ r.mem > c.memPn))
+    (h1 : ¬ r.ranks > 1) (h2 : r.ranks.toNat > slotsPerNode c r (if r.cpr = 0 then 1 else r.cpr)) :
+    scheduleTask c s r = (.error .value, s) := by
+  unfold scheduleTask
+  simp only [h0, if_false]
+  have : decide (r.ranks > 1) = false := by simpa using h1
+  simp [this, h2]
+
+/-- the ranks-per-node limit bounds the number of slots asked of any one node -/
+theorem C02_ranks_per_node (c : Cfg) (r : Req) (cps : Nat) (h : r.rpn ≠ 0) : slotsPerNode c r cps ≤ r.rpn := by
+  unfold slotsPerNode
+  simp only [h, ne_eq, not_false_eq_true, if_true]
+  split <;> split <;> split <;> omega
+
 end RPVerif.C02
